@@ -194,6 +194,33 @@ def check_class(pane, words, style, res):
             if cls2.from_data({canon(words, s): 4}) != cls2(**{x: 4}):
                 core.add_violation(res, {'law': 'class_in_multi', 'style': s, 'nwords': nw},
                                    f"in_rename=all styles, field {x!r}: key {canon(words, s)!r} not bound", cell, cost=nw)
+        # dict(rename=<another style>) of an instance of a class that has its own style: the style asked for wins
+        for other in STYLES:
+            if other == style:
+                continue
+            res['transitions'] += 1
+            res['evals'] += 1
+            d4 = inst.dict(rename=other)
+            if d4 != {canon(words, other): 3}:
+                core.add_violation(res, {'law': 'class_dict_other_style', 'style': style, 'nwords': nw},
+                                   f"class rename={style!r}, field {x!r}: dict(rename={other!r}) gave {d4!r}, expected key {canon(words, other)!r}", cell, cost=nw)
+                break
+        # a field name that cannot be split into words (trailing / leading / doubled separator) is refused by the class path too
+        for badname in (x + '_', '_' + x, x.replace('_', '__', 1) if '_' in x else x + '__' + x):
+            res['transitions'] += 1
+            res['evals'] += 1
+            try:
+                bad_cls = type('RB', (pane.PaneBase,), {'__annotations__': {badname: int}}, rename=style)
+                try:
+                    shown = bad_cls(**{badname: 1}).into_data()
+                except Exception as e4:  # noqa
+                    shown = f"{type(e4).__name__}"
+                core.add_violation(res, {'law': 'class_malformed_name_accepted', 'style': style, 'nwords': nw},
+                                   f"class rename={style!r} with the field name {badname!r} was created (into_data -> {shown!r}); the name cannot be split into words: ValueError expected",
+                                   cell, cost=nw)
+                break
+            except ValueError:
+                pass
         # a field that overrides its OUTPUT name only: it is still read under the class style's canonical name
         cls3 = type('R3', (pane.PaneBase,), {'__annotations__': {x: int}, x: pane.field(out_name='login')}, rename=style)
         res['transitions'] += 2
